@@ -21,8 +21,11 @@ from malt.pyct import qual_names
 class Namer(object):
   """Symbol name generator."""
 
-  def __init__(self, global_namespace):
+  def __init__(self, global_namespace, reserved_names=()):
     self.global_namespace = global_namespace
+    # Identifiers that must never be generated, e.g. every name the entity
+    # being transformed mentions, in whatever role or scope.
+    self.reserved_names = frozenset(reserved_names)
     self.generated_names = set()
 
   def new_symbol(self, name_root, reserved_locals):
@@ -46,7 +49,9 @@ class Namer(object):
     new_name = name_root
 
     while (new_name in self.global_namespace or
-           new_name in all_reserved_locals or new_name in self.generated_names):
+           new_name in all_reserved_locals or
+           new_name in self.reserved_names or
+           new_name in self.generated_names):
       n += 1
       new_name = '%s_%d' % (name_root, n)
 
